@@ -319,7 +319,15 @@ func (g *didGen) msg() (string, string) {
 	if len(g.accepted) > 0 && g.r.Chance(15) { // replay an earlier message verbatim (C04), possibly via another relayer
 		m := pick(g.r, g.accepted)
 		f := strings.Split(m, " ")
-		if g.r.Bool() {
+		switch g.r.Intn(4) {
+		case 0, 1:
+			f[len(f)-1] = toks(from)
+			return strings.Join(f, " "), from
+		case 2:
+			// the same proof (document, key id, signature) under ANOTHER identifier: another registered DID, a look-alike,
+			// or a fresh well-formed one
+			other := pick(g.r, []string{g.dids[g.r.Intn(len(g.dids))], nearMissDID(g.r, s(f[1])), "did:panacea:" + strings.Repeat("2", 32+g.r.Intn(12))})
+			f[1] = toks(other)
 			f[len(f)-1] = toks(from)
 			return strings.Join(f, " "), from
 		}
@@ -377,8 +385,8 @@ func (g *didGen) msg() (string, string) {
 		}
 		ref, doc, newVM := g.buildDoc(docID, newKey, g.shape())
 		seq := g.seq[did]
-		if g.r.Chance(10) {
-			seq = uint64(g.r.Intn(4)) // a wrong sequence
+		if g.r.Chance(15) {
+			seq = staleSeq(g.r, g.seq[did]) // a wrong sequence
 		}
 		signData := doc
 		if g.r.Chance(5) {
@@ -403,8 +411,8 @@ func (g *didGen) msg() (string, string) {
 			signer = g.r.Intn(len(g.keys))
 		}
 		seq := g.seq[did]
-		if g.r.Chance(10) {
-			seq = uint64(g.r.Intn(4))
+		if g.r.Chance(25) {
+			seq = staleSeq(g.r, g.seq[did])
 		}
 		sig := g.sign(signer, &didtypes.DIDDocument{Id: did}, seq, pick(g.r, []int{0, 0, 0, 0, 0, 0, 1}))
 		vmid := g.curVM[did]
@@ -475,6 +483,23 @@ func genDidHistory(r *RNG, nBlocks int) []string {
 
 // nearMissDID returns a valid DID that differs from did in exactly one character of the method-specific id:
 // the other letter case where that is still a base58 character, otherwise the next base58 character.
+// staleSeq: a sequence a proof must NOT be accepted for — preferably the initial one or the previous one
+func staleSeq(r *RNG, cur uint64) uint64 {
+	switch r.Intn(4) {
+	case 0:
+		if cur > 0 {
+			return 0
+		}
+	case 1:
+		if cur > 0 {
+			return cur - 1
+		}
+	case 2:
+		return cur + 1
+	}
+	return uint64(r.Intn(4))
+}
+
 func nearMissDID(r *RNG, did string) string {
 	const pfx = "did:panacea:"
 	// a third of the time a DID that is a proper prefix or an extension of the given one (both still well formed:
